@@ -84,6 +84,10 @@ EnumValueOf(T, v) == PairsGet(EnumMembers(T), v[3])
 EnumByValue(T, j) ==
   LET ms == EnumMembers(T)
       hits == { i \in DOMAIN ms : PyEq(ms[i][2], j) }
-  IN  IF hits = {} THEN Err("enum")
+      \* an enum class may define _missing_: << <<"missing", member>> >> as 5th component = every unknown value becomes that member
+      \* (the documented constructor of the ENUM TYPE; a Literal listing a member compares with the member's value, never through it)
+      opts == IF Len(T) >= 5 THEN T[5] ELSE <<>>
+      catch == IF \E i \in DOMAIN opts : opts[i][1] = "missing" THEN (CHOOSE o \in Range(opts) : o[1] = "missing")[2] ELSE "#none"
+  IN  IF hits = {} THEN (IF catch = "#none" THEN Err("enum") ELSE Ok(<<"enum", T[2], catch>>))
       ELSE Ok(<<"enum", T[2], ms[CHOOSE i \in hits : \A k \in hits : i <= k][1]>>)
 =============================================================================
